@@ -32,4 +32,5 @@ def run(ctx):
             r_paren.rule_paren(ctx, "C01", parts=("oracle",), roles=("prefix",), all_kinds=True,
                                why="on a call / index prefix they are mandatory: `({..})[i]` becomes `{..}[i]`, "
                                    "`(function() end)()` becomes `function() end()`, which does not parse"),
-            r_keep.rule_getter_setter_fields(ctx, "C01"), r_layout.rule_comment_layout(ctx, "C01"), r_regex.rule_regex(ctx, "C01")]
+            r_keep.rule_getter_setter_fields(ctx, "C01"), r_layout.rule_comment_layout(ctx, "C01"), r_regex.rule_regex(ctx, "C01"), r_paren.rule_paren(ctx, "C01", parts=("oracle",), roles=("lhs-other", "lhs^", "rhs", "unary-operand", "lhs-unknown", "assert-operand"),
+                               why="which changes the parse at that role - for a type assertion on the left of `<` the output does not parse at all (`v :: T < x` opens a generic argument list)")]
